@@ -14,6 +14,20 @@ every reachable state
    nearest(a)..nearest(b) (exact integer arithmetic on the dyadic floats, see
    hvmc/ref/trim.py) or raise IndexError, leaving the samples alone, for a < 0,
    a >= b, b after the last sample.
+
+Round 5 additions.  (a) The constructor is also handed ONE TimeSeries object for
+two or three components (every index triple over the three given series in
+shallow states, the five partition patterns in every state); the stored
+components must equal what was given, share nothing with the given series nor
+with EACH OTHER (an edit of one stored component leaves the other two alone) and
+trim on the recording so built must keep nearest(a)..nearest(b) in every
+component; recordings built this way are roots of the search as well, and the
+harness' private copies reproduce which component objects are one object.
+(b) Family "pair": two different objects (TimeSeries or SeismicRecording3C, every
+ordered pair of (length, time step) configurations, same and different lengths
+and time steps) are trimmed directly one after the other with identical
+arguments, both judged against the exact reference - nothing found for one
+object may be carried to the next.
 """
 import copy
 import json
@@ -78,8 +92,9 @@ def make_recording(root):
     L, dt = root["L"], root["dt"]
     ns, ew, vt = (np.array(a, copy=True) for a in component_signals(L))
     deg = DEG_TYPES[root.get("deg_type", "plain")](root["deg"])
-    return SeismicRecording3C(TimeSeries(ns, dt), TimeSeries(ew, dt), TimeSeries(vt, dt),
-                              degrees_from_north=deg, meta=root_meta())
+    series = [TimeSeries(ns, dt), TimeSeries(ew, dt), TimeSeries(vt, dt)]
+    i, j, k = root.get("given", (0, 1, 2))      # which of the three series is handed over as ns, ew, vt
+    return SeismicRecording3C(series[i], series[j], series[k], degrees_from_north=deg, meta=root_meta())
 
 
 # the orientation as an element of an integer azimuth array, a single-precision value, a 0-d array ...
@@ -123,6 +138,16 @@ def intervals(n, dt):
 
 MENU_INTERVALS = ("on-sample", "between", "between-up", "half-way", "whole-inside",
                   "single-sample", "start-negative", "end-just-beyond")
+
+
+# which of the three given series is handed to the constructor as (ns, ew, vt): the five ways in which
+# three arguments can coincide (quick), every index triple (thorough)
+PATTERNS_QUICK = ((0, 1, 2), (0, 0, 2), (0, 1, 0), (0, 1, 1), (0, 0, 0))
+PATTERNS_ALL = tuple((i, j, k) for i in range(3) for j in range(3) for k in range(3))
+# states reached by at most WIDE_DEPTH[tier] operations get every index triple and three trims of the
+# recording so built, deeper states the five partition patterns and one trim
+CONSTRUCTED_TRIMS = {"narrow": ("between",), "wide": ("between", "single-sample", "end-just-beyond")}
+WIDE_DEPTH = {"quick": 0, "thorough": 1}
 
 
 class Holder:
@@ -196,12 +221,26 @@ def private_copy(rec, deep_meta=True):
     if deep_meta:
         return copy.deepcopy(rec)
     new = copy.copy(rec)
+    memo = {}                   # like deepcopy: components that are ONE object stay one object
     for c in COMPONENTS:
-        ts = copy.copy(getattr(rec, c))
-        ts.amplitude = np.array(ts.amplitude, copy=True)
-        setattr(new, c, ts)
+        old = getattr(rec, c)
+        if id(old) not in memo:
+            ts = copy.copy(old)
+            ts.amplitude = np.array(ts.amplitude, copy=True)
+            memo[id(old)] = ts
+        setattr(new, c, memo[id(old)])
     new.meta = dict(rec.meta)
     return new
+
+
+def sharing(rec):
+    """Which pairs of stored components are one object / share sample storage."""
+    out = []
+    for i, a in enumerate(COMPONENTS):
+        for b in COMPONENTS[i + 1:]:
+            x, y = getattr(rec, a), getattr(rec, b)
+            out.append((a, b, x is y, bool(np.shares_memory(x.amplitude, y.amplitude))))
+    return tuple(out)
 
 
 def _fl(v):
@@ -217,6 +256,7 @@ class System:
         self.tmpdir = tmpdir
         self.nfile = 0
         self._outcomes = set()
+        self.wide_depth = WIDE_DEPTH["quick"]           # run_root sets it for the thorough tier
 
     def _outcome(self, ctx, x):
         if x not in self._outcomes:
@@ -281,7 +321,8 @@ class System:
         return (arr_digest(r.ns.amplitude, r.ew.amplitude, r.vt.amplitude),
                 tuple(float(getattr(r, c).dt_in_seconds) for c in COMPONENTS),
                 float(r.degrees_from_north),
-                json.dumps(norm_meta(r.meta), sort_keys=True, default=repr))
+                json.dumps(norm_meta(r.meta), sort_keys=True, default=repr),
+                tuple(s[2:] for s in sharing(r)))
 
     def observe(self, h):
         # "touch": checkpoint the recording to disk between operations, the way a user saves
@@ -307,6 +348,7 @@ class System:
         before = self.canon(h)
         self._persist(rec, hist, ctx, root)
         self._copies(rec, hist, ctx, root)
+        self._siblings(ctx, root, "state", hist, rec, write_on=private_copy(rec, deep_meta=False))
         self._trims(rec, hist, ctx, root)
         if self.canon(h) != before:
             ctx.violation("C18:harness:state-changed-by-judging", root, detail=dict(hist=hist),
@@ -470,27 +512,12 @@ class System:
                               [(f"source {c} / copy", (lambda o=ts: o.amplitude), (lambda o=cp: o.amplitude))],
                               extra=dict(component=c))
 
-        # -- components handed to the constructor
-        src = private_copy(rec, deep_meta=False)
-        given = [src.ns, src.ew, src.vt]
-        snap, deg, dt = samples(src), float(src.degrees_from_north), src.ns.dt_in_seconds
-        ctx.count("transitions")
-        ctx.count("copy_routes_exercised")
-        try:
-            cp = SeismicRecording3C(given[0], given[1], given[2],
-                                    degrees_from_north=src.degrees_from_north, meta=src.meta)
-        except Exception as e:          # noqa: BLE001
-            ctx.violation("C18:constructor:raises", root, detail=dict(hist=hist),
-                          observed=f"{type(e).__name__}: {e}", explanation="constructor raised")
-        else:
-            self._same_recording(ctx, root, "constructor", hist, snap, deg, dt, cp)
-            pairs = []
-            for i, cs in enumerate(COMPONENTS):
-                for cc in COMPONENTS:
-                    pairs.append((f"given {cs} / stored {cc}",
-                                  (lambda o=given[i]: o.amplitude),
-                                  (lambda o=cp, c=cc: getattr(o, c).amplitude)))
-            self._independent(ctx, root, "constructor", hist, pairs)
+        # -- components handed to the constructor: every pattern of which given series is handed over
+        #    for which component (one series may be handed over for two or three of them)
+        wide = len(hist) <= self.wide_depth
+        for idx in (PATTERNS_ALL if wide else PATTERNS_QUICK):
+            self._constructor_route(rec, hist, ctx, root, tuple(idx),
+                                    CONSTRUCTED_TRIMS["wide" if wide else "narrow"])
 
         # -- split products
         n, dt = rec.ns.n_samples, rec.ns.dt_in_seconds
@@ -527,6 +554,78 @@ class System:
                               [(f"source / window[{k}]", (lambda o=ts: o.amplitude), (lambda o=p: o.amplitude))
                                for k, p in enumerate(tprods)], extra=dict(window_length=w))
 
+    def _constructor_route(self, rec, hist, ctx, root, idx, trims):
+        route = "constructor" if len(set(idx)) == 3 else "constructor-one-series-for-several-components"
+        extra = dict(given_as_ns_ew_vt=[COMPONENTS[i] for i in idx])
+
+        def build():
+            src = private_copy(rec, deep_meta=False)
+            series = [src.ns, src.ew, src.vt]
+            given = [series[i] for i in idx]
+            ctx.count("transitions")
+            return src, given, SeismicRecording3C(given[0], given[1], given[2],
+                                                  degrees_from_north=src.degrees_from_north, meta=src.meta)
+        ctx.count("copy_routes_exercised")
+        ctx.count("constructor_patterns_exercised")
+        if len(set(idx)) < 3:
+            ctx.count("constructor_repeated_series_cases")
+        try:
+            src, given, cp = build()
+        except Exception as e:          # noqa: BLE001
+            ctx.violation(f"C18:{route}:raises", root, detail=dict(hist=hist, **extra),
+                          observed=f"{type(e).__name__}: {e}", explanation="constructor raised")
+            return
+        snap = tuple(np.array(g.amplitude, copy=True) for g in given)
+        self._same_recording(ctx, root, route, hist, snap, float(src.degrees_from_north),
+                             src.ns.dt_in_seconds, cp)
+        # stored components against each other, then against what was given
+        self._siblings(ctx, root, route, hist, cp, extra=extra)
+        pairs = []
+        for i in sorted(set(idx)):
+            for cc in COMPONENTS:
+                pairs.append((f"given series {COMPONENTS[i]} / stored {cc}",
+                              (lambda o=[src.ns, src.ew, src.vt][i]: o.amplitude),
+                              (lambda o=cp, c=cc: getattr(o, c).amplitude)))
+        self._independent(ctx, root, route, hist, pairs, extra=extra)
+        # the recording so built is a recording: trim keeps nearest(a)..nearest(b) in every component
+        n, dt = rec.ns.n_samples, rec.ns.dt_in_seconds
+        for label, a, b in intervals(n, dt):
+            if label not in trims:
+                continue
+            try:
+                _, _, cp2 = build()
+            except Exception:           # noqa: BLE001 - reported above
+                return
+            ctx.count("constructed_recording_trims")
+            self._trim_one(ctx, root, hist, f"{route}:SeismicRecording3C.trim", label, a, b,
+                           RT.expected(n, dt, a, b), cp2, COMPONENTS, extra=extra)
+
+    def _siblings(self, ctx, root, route, hist, rec, write_on=None, extra=None):
+        """The three stored components are three storages: none shares with, or moves with, another."""
+        detail = dict(hist=hist, route=route, **(extra or {}))
+        for a, b, same_obj, shared in sharing(rec):
+            ctx.count("sibling_pairs_checked")
+            if same_obj or shared:
+                ctx.violation(f"C18:{route}:stored-components:shares-memory", root,
+                              detail=dict(pair=f"stored {a} / stored {b}", one_object=same_obj, **detail),
+                              expected=False, observed=True,
+                              explanation=f"{route}: the stored components {a} and {b} share sample storage")
+        obj = rec if write_on is None else write_on
+        for c in COMPONENTS:
+            others = [o for o in COMPONENTS if o != c]
+            before = {o: np.array(getattr(obj, o).amplitude, copy=True) for o in others}
+            arr = getattr(obj, c).amplitude
+            if not arr.size:
+                continue
+            arr[...] = arr * 0.25 - 4321.5
+            ctx.count("sibling_edits_checked")
+            for o in others:
+                if not bitwise_equal(getattr(obj, o).amplitude, before[o]):
+                    ctx.violation(f"C18:{route}:stored-components:edit-of-one-visible-in-another", root,
+                                  detail=dict(edited=c, moved=o, **detail),
+                                  expected=_fl(before[o]), observed=_fl(getattr(obj, o).amplitude),
+                                  explanation=f"{route}: editing the stored {c} samples altered the stored {o} samples")
+
     # (3) trim -----------------------------------------------------------------
     def _trims(self, rec, hist, ctx, root):
         n, dt = rec.ns.n_samples, rec.ns.dt_in_seconds
@@ -546,14 +645,15 @@ class System:
                 if exp["ends"][0] - 1 >= exp["starts"][0]:
                     ctx.count("wrong_variant_end_exclusive_differs")
 
-    def _trim_one(self, ctx, root, hist, site, label, a, b, exp, obj, comps):
+    def _trim_one(self, ctx, root, hist, site, label, a, b, exp, obj, comps, extra=None):
         def arr(c):
             return obj.amplitude if c is None else getattr(obj, c).amplitude
         pre = {c: np.array(arr(c), copy=True) for c in comps}
         n = len(pre[comps[0]])
         dtv = (obj if comps[0] is None else obj.ns).dt_in_seconds
         detail = dict(hist=hist, call=f"{site}({a!r}, {b!r})", interval=label, n_samples=n, dt=dtv,
-                      start_in_samples=a / dtv, end_in_samples=b / dtv, last_sample_index=n - 1)
+                      start_in_samples=a / dtv, end_in_samples=b / dtv, last_sample_index=n - 1,
+                      **(extra or {}))
         ctx.count("transitions")
         ctx.count("trim_calls")
         raised = None
@@ -630,11 +730,17 @@ def _containers(x):
 # ---------------------------------------------------------------------------
 # runner interface
 
-def _recordings():
+def _recordings(tier="thorough"):
     out = [dict(L=L, dt=dt, deg=deg) for L in LENGTHS for dt in DTS for deg in DEPLOYED]
     out += [dict(L=64, dt=0.01, deg=deg, deg_type=t) for deg, t in ((33, "np.int64"), (400, "np.int32"),
                                                                     (77.5, "np.float32"), (33, "np.float64"),
                                                                     (33, "array0d"))]
+    # one TimeSeries object handed to the constructor for two or three components
+    if tier == "quick":
+        out += [dict(L=9, dt=1 / 75, deg=33, given=list(g)) for g in ((0, 0, 0), (0, 1, 1))]
+    else:
+        out += [dict(L=9, dt=1 / 75, deg=33, given=list(g)) for g in PATTERNS_QUICK[1:]]
+        out += [dict(L=64, dt=0.01, deg=33, given=[0, 0, 0])]
     return out
 
 
@@ -669,11 +775,67 @@ def long_root(root, ctx):
     ctx.nontrivial_case(("long", L, dt))
 
 
+# ---------------------------------------------------------------------------
+# family "pair": two different objects trimmed one directly after the other with identical arguments
+
+PAIR_LENGTHS = {"quick": (9, 64, 65), "thorough": (9, 64, 65, 201)}
+PAIR_DTS = {"quick": (0.01, 0.02, 1 / 75, 0.005), "thorough": (0.01, 0.02, 1 / 75, 0.005)}
+PAIR_KINDS = ("TimeSeries", "SeismicRecording3C")
+
+
+def _pair_object(kind, L, dt, which):
+    """Distinct sample values everywhere (1013 is prime), other values for the second object."""
+    base = ((np.arange(L) * 7919) % 1013) / 1013.0 - 0.5
+    if which:
+        base = 3.0 - 2.0 * base
+    if kind == "TimeSeries":
+        return TimeSeries(np.array(base, copy=True), dt), (None,)
+    return SeismicRecording3C(TimeSeries(np.array(base, copy=True), dt), TimeSeries(base + 10.0, dt),
+                              TimeSeries(base * 4.0, dt)), COMPONENTS
+
+
+def pair_root(root, ctx, tier):
+    LA, dtA = root["L"], root["dt"]
+    sysm = System(dict(root, prefix=[]))
+    for LB in PAIR_LENGTHS[tier]:
+        for dtB in PAIR_DTS[tier]:
+            ownA = {(a, b): label for label, a, b in intervals(LA, dtA)}
+            ownB = {(a, b): label for label, a, b in intervals(LB, dtB)}
+            menu = {**ownA, **ownB}         # every interval of either record, in absolute seconds
+            for kA in PAIR_KINDS:
+                for kB in PAIR_KINDS:
+                    for (a, b) in menu:
+                        # the interval class as seen from the object that is trimmed
+                        labelA = ownA.get((a, b), "interval-of-the-other-record")
+                        labelB = ownB.get((a, b), "interval-of-the-other-record")
+                        first, compsA = _pair_object(kA, LA, dtA, 0)
+                        second, compsB = _pair_object(kB, LB, dtB, 1)
+                        ctx.count("states")
+                        ctx.count("pair_cases")
+                        if LA == LB and dtA != dtB:
+                            ctx.count("pair_cases_same_length_other_time_step")
+                        expA = RT.expected(LA, dtA, a, b)
+                        expB = RT.expected(LB, dtB, a, b)
+                        if LA == LB and (expA["refuse"], expA["starts"], expA["ends"]) != \
+                                (expB["refuse"], expB["starts"], expB["ends"]):
+                            ctx.count("pair_cases_same_length_other_expectation")
+                        sysm._trim_one(ctx, root, [], f"{kA}.trim", labelA, a, b, expA, first, compsA)
+                        sysm._trim_one(ctx, root, [], f"after-same-trim-of-another-object:{kB}.trim", labelB, a, b,
+                                       expB, second, compsB,
+                                       extra=dict(directly_before=f"{kA}.trim({a!r}, {b!r}) on another object of "
+                                                                  f"{LA} samples at dt={dtA!r}",
+                                                  this_object=f"{kB} of {LB} samples at dt={dtB!r}",
+                                                  interval_seen_from_the_other_object=labelA))
+                        ctx.count("validated")
+    ctx.nontrivial_case(("pair", LA, dtA))
+
+
 def roots(tier, seed):
     out = []
+    out += [dict(kind="pair", L=L, dt=dt) for L in PAIR_LENGTHS[tier] for dt in PAIR_DTS[tier]]
     out += [dict(kind="long", **r) for r in (LONG[:2] if tier == "quick" else LONG)]
     if tier == "quick":
-        for r in _recordings():
+        for r in _recordings("quick"):
             out.append(dict(depth=2, prefix=[], **r))
         return out
     # thorough: depth 3 = every first operation as its own root (load balance),
@@ -690,12 +852,18 @@ def run_root(root, ctx, tier):
     if root.get("kind") == "long":
         long_root(root, ctx)
         return
+    if root.get("kind") == "pair":
+        pair_root(root, ctx, tier)
+        return
     tmp = tempfile.mkdtemp(prefix="hvmc-c18-")
     try:
         sysm = System(root, tmpdir=tmp)
+        if tier == "thorough":
+            sysm.wide_depth = WIDE_DEPTH["thorough"]
         seen = explorer.bfs(sysm, root, root["depth"], ctx, key_prefix="C18",
                             check_determinism=(tier == "thorough"), touch=True)
-        ctx.nontrivial_case((root["L"], root["dt"], root["deg"], root.get("deg_type"), root.get("prefix", [])))
+        ctx.nontrivial_case((root["L"], root["dt"], root["deg"], root.get("deg_type"),
+                             tuple(root.get("given", ())), root.get("prefix", [])))
         ctx.notes["max_history_length"] = max(ctx.notes.get("max_history_length", 0),
                                               len(root.get("prefix", [])) + root["depth"])
         if len(ctx.samples) < 2:
@@ -714,7 +882,10 @@ def finalize(ctx, tier):
     need = ["save_load_roundtrips", "copy_pairs_checked", "split_products_checked",
             "trim_kept_judged", "trim_refusals_judged", "knife_edge",
             "states_with_tuple_in_meta", "wrong_variant_floor_differs",
-            "wrong_variant_end_exclusive_differs"]
+            "wrong_variant_end_exclusive_differs",
+            "constructor_repeated_series_cases", "constructed_recording_trims", "sibling_pairs_checked",
+            "sibling_edits_checked", "pair_cases_same_length_other_time_step",
+            "pair_cases_same_length_other_expectation"]
     for k in need:
         if not c.get(k, 0):
             ctx.violation(f"C18:vacuous:{k}", None, explanation=f"counter {k} is zero - the oracle "
@@ -732,9 +903,12 @@ def describe(tier):
              "save->load, 4 copy routes (copy constructor, TimeSeries copy constructor x3, constructor, "
              "split with 2 window lengths) with shares_memory and writes on both sides, and 13 trim "
              "intervals on SeismicRecording3C and TimeSeries against exact integer arithmetic; a case "
-             "is non-trivial/distinct by (L, dt, orientation, first operation); five more roots give the deployed orientation as np.int64/np.int32/np.float32/np.float64/0-d array; the time vectors returned by time() are shifted in place by the harness between operations; family long: 13 + 4 trim intervals on TimeSeries (5 of them also on SeismicRecording3C) of 400001 samples at 0.01 s, 270000 at 1/75 s (and 131072 at 0.005 s, thorough)",
+             "is non-trivial/distinct by (L, dt, orientation, first operation); five more roots give the deployed orientation as np.int64/np.int32/np.float32/np.float64/0-d array; the time vectors returned by time() are shifted in place by the harness between operations; family long: 13 + 4 trim intervals on TimeSeries (5 of them also on SeismicRecording3C) of 400001 samples at 0.01 s, 270000 at 1/75 s (and 131072 at 0.005 s, thorough); constructor route: in every state the three series are handed to the constructor in the five partition patterns (a,b,c), (a,a,c), (a,b,a), (a,b,b), (a,a,a) - one TimeSeries object for two or three components - and, in states reached by at most 0 (quick) / 1 (thorough) operations, in all 27 index triples; judged: stored samples equal the given ones, no stored component shares storage with a given series or with another stored component, an edit of one stored component leaves the other two alone, and trim of the recording so built (1 interval; 3 in shallow states) keeps nearest(a)..nearest(b) in every component; the same sibling oracle holds in every reachable state; further roots are recordings built from one series for several components (2 patterns at L=9 quick; 4 at L=9 and (a,a,a) at L=64 thorough), and the harness' private copies keep components that are one object one object; family pair: for every ordered pair of configurations (L, dt) from L in {9,64,65} (thorough also 201) x dt in {0.01, 0.02, 1/75, 0.005}, every pair of kinds (TimeSeries, SeismicRecording3C) and every one of the 13 intervals of either record (absolute seconds), a fresh first object is trimmed and directly afterwards a fresh second object with other samples is trimmed with the identical arguments; both are judged against the exact reference for their own (L, dt) (same length / other time step, same time step / other length, refused first / accepted second and vice versa are all inside)",
         bounds=dict(depth="2 quick; 3 thorough (every first operation is a root explored 2 further)",
-                    menu=20, trim_intervals_judged_per_state=13),
+                    menu=20, trim_intervals_judged_per_state=13,
+                    constructor_patterns_per_state="5; 27 in states within 0 (quick) / 1 (thorough) operations",
+                    pair_family="ordered pairs of 12 (quick) / 16 (thorough) configurations x 4 kind pairs x "
+                                "<= 26 intervals; sequences of exactly two trims on two objects"),
         exhaustive=True,
         assumptions=["thorough only: every history is replayed a second time and must reach the same state",
                      "metadata keys are strings and values are finite JSON numbers, strings, booleans, None, "
@@ -745,4 +919,11 @@ def describe(tier):
                      "within 1e-9 relative of the last sample time, is knife-edge: either neighbour / either "
                      "decision is accepted",
                      "sample time i is i*dt with dt the stored float (exact dyadic arithmetic)",
-                     "a NaN sample restored as a NaN with another payload counts as restored"])
+                     "a NaN sample restored as a NaN with another payload counts as restored",
+                     "stored components sharing storage with EACH OTHER is judged as a breach: the statement "
+                     "names source and copy only, but per-component trim (keeps nearest(a)..nearest(b) in every "
+                     "component) cannot hold when two stored components are one storage; the trim oracle on the "
+                     "constructed recording judges the same thing through the statement's own clause",
+                     "carried state between objects is searched with sequences of two trims only (first object, "
+                     "then second object, identical arguments); longer interleavings across objects are not "
+                     "enumerated"])
